@@ -130,8 +130,8 @@ func permTree(c *q.Ctx) {
 		c.Gate(bp, "AclManager.GetAccountACL", q.ToSuccess(), q.Opt{K1Only: true})
 		// every component of a signer path becomes a node: only the LAST element's signature was verified, and an
 		// address node counts only as a leaf - a path cut short turns a merely named member into a signer
-		c.FullLoop(bp, q.Cond{Canon: "(phi{(1 + loop)|0|1} < len(ptree.SplitAccountURI(p2[])))", Sense: true}, "the whole path is entered into the tree")
-		c.FullLoop(bp, q.Cond{Canon: "(#i < len(p2))", Sense: true}, "every signer path is entered into the tree")
+		c.FullLoop(bp, q.ToCall("PermNode.FindChild"), 0, "the whole path is entered into the tree")
+		c.FullLoop(bp, q.ToCall("PermNode.FindChild"), 1, "every signer path is entered into the tree")
 	}
 }
 
